@@ -70,6 +70,8 @@ class Overlay:
                     d['loops'][cur_sec[1]] = (text, buf_line)
                 elif cur_sec[0] == 'closure':
                     d['closures'][cur_sec[1]] = (text.strip(), buf_line)
+                elif cur_sec[0] == 'closure_named':
+                    d.setdefault('closures_named', {})[cur_sec[1]] = (text.strip(), buf_line)
                 elif cur_sec[0] == 'beforeloop':
                     d['beforeloop'][cur_sec[1]] = (text, buf_line)
                 elif cur_sec[0] == 'loopentry':
@@ -124,6 +126,13 @@ class Overlay:
                 cur_sec = None
             elif d in ('loop', 'closure', 'beforeloop', 'loopentry', 'afterinit', 'loopend', 'closurecall', 'afterloop'):
                 parts = arg.split()
+                if d == 'closure' and parts and not parts[0].isdigit():
+                    # `//@ closure METHOD K`: header of the K-th closure literal that is the first argument
+                    # of a call `.METHOD(`/`METHOD(` (robust against closures inserted elsewhere)
+                    if len(parts) != 2 or not parts[1].isdigit():
+                        raise Undecided('overlay %s:%d: closure needs N or METHOD K' % (path, ln))
+                    cur_sec = ('closure_named', (parts[0], int(parts[1])))
+                    continue
                 cur_sec = (d, int(parts[0]))
                 if d == 'closurecall' and len(parts) >= 3 and parts[1] == 'via':
                     # `//@ closurecall N via FN`: the call becomes `FN(__iN, <closure>)` (FN: a verified
@@ -420,6 +429,10 @@ class FnRewriter:
             if n > self._loop_no:
                 raise Undecided('%s: overlay names loop %d but the function has %d loops'
                                 % (self.fnkey, n, self._loop_no))
+        for key in self.ov.get('closures_named', {}):
+            if key not in getattr(self, '_named_used', set()):
+                raise Undecided('%s: overlay names closure `%s %d` but no such closure argument exists'
+                                % (self.fnkey, key[0], key[1]))
         for n in self.ov['closures']:
             if n > self._closure_no:
                 raise Undecided('%s: overlay names closure %d but the function has %d closures'
@@ -1078,6 +1091,28 @@ class FnRewriter:
                     ce = k
                 self._closure_no += 1
                 n = self._closure_no
+                if overlay_piece and self.ov.get('closures_named'):
+                    # named closure anchor: `RECV.METHOD(|..| ..)` -- the callee's name and a per-name ordinal
+                    pk = j - 1
+                    while pk >= lo and toks[pk].kind in ('ws', 'comment'):
+                        pk -= 1
+                    callee = None
+                    if pk >= lo and toks[pk].kind == 'punct' and toks[pk].text == '(':
+                        pk -= 1
+                        while pk >= lo and toks[pk].kind in ('ws', 'comment'):
+                            pk -= 1
+                        if pk >= lo and toks[pk].kind == 'ident':
+                            callee = toks[pk].text
+                    if callee is not None:
+                        cnt = self.__dict__.setdefault('_closure_by_callee', {})
+                        cnt[callee] = cnt.get(callee, 0) + 1
+                        key = (callee, cnt[callee])
+                        if key in self.ov['closures_named']:
+                            if n in self.ov['closures']:
+                                raise Undecided('%s: closure %d is annotated both by ordinal and as %s %d'
+                                                % (self.fnkey, n, callee, cnt[callee]))
+                            self.ov['closures'][n] = self.ov['closures_named'][key]
+                            self.__dict__.setdefault('_named_used', set()).add(key)
                 if overlay_piece and n in self.ov.get('closureopaque', {}):
                     # R17 closure-opaque: the whole n-th closure literal (header and body) is replaced by
                     # the env expression given in `//@ closureopaque n EXPR` (an assumed `impl FnMut..`
